@@ -4,7 +4,7 @@ from . import lib, asynclib as al, compiledlib as cl, c07
 
 
 def run(chk, replay=None):
-    chk.stage_proofs()
+    chk.stage_proofs(kernels=["Runner"])
     quick = chk.tier == "quick"
 
     def extra(rnd, j):
